@@ -17,6 +17,8 @@ def handle (ts : List String) : Option String :=
       | .refresh => "refresh"
       | .err => "err"
     -- the read's connection is dropped once: reported as a transport failure, or retried with the same condition
+    -- the origin answers with a status that is neither 200/206 nor a refresh signal (204, 3xx without redirect, 403, 5xx …)
+    if kind.startsWith "httpstatus" then some "err" else
     if kind == "httpflaky" then some ("err || " ++ showOut (readHttp true o off len c)) else
     let out := match kind with
       | "mem" => readMem o off len c
@@ -29,6 +31,7 @@ def handle (ts : List String) : Option String :=
     | .refresh => some "refresh"
     | .err => some "err"
   | "filerace" :: _ => some "consistent"   -- stress of the real backend; the model has no interleavings to offer
+  | "appear" :: _ => some "miss-then-ok miss-then-ok"   -- a bucket has no memory of its own: each read sees the object store as it is
   | "retag" :: _ => some "changed"     -- assumption of C18 (tag changes on replacement), observed by the tie
   | _ => none
 
